@@ -199,6 +199,9 @@ class Evaluator:
                 a, b = self._val(regs, i.ops[0]), self._val(regs, i.ops[1])
                 if not b.is_const() or b.k <= 0:
                     raise AnalysisBroken('affine: division by a non-constant at %s' % i.where())
+                if a.is_const() and a.k >= 0:
+                    regs[i.id] = Aff({}, a.k // b.k if op in ('udiv', 'sdiv') else a.k % b.k)          # constant folding
+                    continue
                 lo, hi = path.interval(a)
                 if lo < 0:
                     raise AnalysisBroken('affine: division of a possibly negative value at %s' % i.where())
